@@ -542,6 +542,13 @@ RETRY:
 		}
 	}
 
+	if !allValidSignatures {
+		// Like the future vote handlers:
+		// if we see any bad signatures,
+		// don't bother processing any of the good signatures.
+		return tmconsensus.HandleVoteProofsBadSignature
+	}
+
 	if len(voteUpdates) == 0 {
 		// We must have been unable to build the sign bytes or signature proof.
 		// Ignore the message for now.
@@ -898,6 +905,13 @@ RETRY:
 			Proof:       fullProof,
 			PrevVersion: curPrecommitState.PrecommitBlockVersions[blockHash],
 		}
+	}
+
+	if !allValidSignatures {
+		// Like the future vote handlers:
+		// if we see any bad signatures,
+		// don't bother processing any of the good signatures.
+		return tmconsensus.HandleVoteProofsBadSignature
 	}
 
 	if len(voteUpdates) == 0 {
